@@ -495,3 +495,55 @@ pub fn ne_litpush_b<F: FnMut(u32)>(a: u32, b: u32, mut f: F) {
         f(x);
     }
 }
+
+// ---- contains  ==  any(==)
+#[derive(PartialEq, Eq, Clone, Copy)]
+pub struct Key(pub u32);
+pub fn eq_contains_a(t: &[Vec<Key>], x: &Key) -> bool {
+    t.iter().any(|g| g.contains(x))
+}
+pub fn eq_contains_b(t: &[Vec<Key>], x: &Key) -> bool {
+    t.iter().any(|g| g.iter().any(|e| *e == *x))
+}
+pub fn ne_contains_a(t: &[Vec<Key>], x: &Key) -> bool {
+    t.iter().any(|g| g.contains(x))
+}
+pub fn ne_contains_b(t: &[Vec<Key>], x: &Key) -> bool {
+    t.iter().any(|g| !g.contains(x))
+}
+
+// ---- swap with a local  ==  replace
+pub fn eq_swap_a(s: &mut St, v: u32) -> St {
+    std::mem::replace(s, St::Away(v))
+}
+pub fn eq_swap_b(s: &mut St, v: u32) -> St {
+    let mut n = St::Away(v);
+    std::mem::swap(s, &mut n);
+    n
+}
+
+// ---- peeling a slice with split_first  ==  for
+pub fn eq_peel_a<F: FnMut(&mut u8)>(t: &mut Vec<u8>, mut f: F) {
+    for x in t.iter_mut() {
+        f(x);
+    }
+}
+pub fn eq_peel_b<F: FnMut(&mut u8)>(t: &mut Vec<u8>, mut f: F) {
+    let mut rest = t.as_mut_slice();
+    while let Some((x, tail)) = rest.split_first_mut() {
+        f(x);
+        rest = tail;
+    }
+}
+pub fn ne_peel_a<F: FnMut(&mut u8)>(t: &mut Vec<u8>, mut f: F) {
+    for x in t.iter_mut() {
+        f(x);
+    }
+}
+pub fn ne_peel_b<F: FnMut(&mut u8)>(t: &mut Vec<u8>, mut f: F) {
+    let mut rest = t.as_mut_slice();
+    while let Some((x, tail)) = rest.split_first_mut() {
+        f(x);
+        rest = if tail.len() > 1 { &mut tail[1..] } else { tail };
+    }
+}
